@@ -4,7 +4,7 @@ import ast
 from sa.cfg import cfg_of
 from sa.effects import attr_writes
 from sa.program import dotted, norm, own_nodes, const_str
-from sa.util import (ancestors, assignments_to, cfg_node_of, compare_parts, derives_from, guards_at, names_in, self_calls_in, stmt_text)
+from sa.util import (ancestors, in_finally, assignments_to, cfg_node_of, compare_parts, derives_from, guards_at, names_in, self_calls_in, stmt_text)
 from . import shared
 from .roles import VIEWS, roles, ENGINE_MODULES
 
@@ -124,10 +124,68 @@ def run(ctx):
     for v in VIEWS:
         b = roles(ctx, v).builtin
         incs = [w for w in attr_writes(b) if w.attr == "_action_depth" and w.op == "aug"]
-        from sa.util import in_finally
         ok = len(incs) >= 2 and any(in_finally(b, w.node) is not None for w in incs)
         c.ob("R1", ok, b, "action-depth-paired", "_action_depth is incremented around follow-up execution and restored in a finally" if ok else
              "_action_depth is not restored in a finally around the recursive follow-up execution", b.node)
+    # ---- R5 nothing inside the bracket rewrites the depth counter ------------------------------------
+    # The unwinding is one decrement per nested level.  A plain write (a "reset") anywhere that can run while a
+    # bracket is open leaves the counter negative after the unwinding, and every later expansion on this
+    # interpreter is cut that many levels too late.
+    n5 = 0
+    for v in VIEWS:
+        b = roles(ctx, v).builtin
+        inner = []
+        for tr in own_nodes(b.node):
+            if isinstance(tr, ast.Try) and any(isinstance(x, ast.AugAssign) and "_action_depth" in norm(x.target) for s_ in tr.finalbody for x in ast.walk(s_)):
+                for s_ in res.callsites(b, v):
+                    if s_.recv == "self" and any(s_.call is y for st in tr.body for y in ast.walk(st)):
+                        inner.extend(s_.targets)
+        c.need(inner, f"calls inside the action-depth bracket ({v})")
+        clo = res.self_closure(inner, v)
+        for f in clo.values():
+            for w in attr_writes(f):
+                if w.attr != "_action_depth" or w.base != "self":
+                    continue
+                n5 += 1
+                paired = w.op == "aug" and f is b
+                c.ob("R5", paired, f, f"{v}:depth-counter-write:{w.op}",
+                     "the depth counter is only stepped by the increment/decrement pair" if paired else
+                     f"'{stmt_text(w.node)}' rewrites the expansion-depth counter in code that runs while the increment/decrement bracket of "
+                     f"{b.short} is open: the pending decrements then drive it below zero and every later self-enqueueing expansion on this "
+                     f"interpreter is cut that many levels later than MAX_ACTION_DEPTH (eventually by RecursionError)", w.node)
+    c.floor("R5", "writes to the depth counter inside the bracket closure", n5, 2)
+    # ---- R6 the expansion bound limits work, not only nesting ---------------------------------------
+    # The follow-ups of one expansion are a list of user-chosen length and each element may expand again, so
+    # the recursion is a tree.  A counter that is restored on the way out (a depth) bounds the height of that
+    # tree; the number of expansions is then up to fan-out ** height.  Bounded work needs a counter tested by
+    # the cut that is *not* restored in the bracket's finally.
+    cf6 = p.method("BaseInterpreter", "_collect_builtin_followups")
+    cut_tests = [x for x in own_nodes(cf6.node) if isinstance(x, ast.If) and any(isinstance(y, ast.Return) for y in x.body)
+                 and ("MAX_ACTION_DEPTH" in norm(x.test) or "max_iterations" in norm(x.test))]
+    tested = set()
+    for t in cut_tests:
+        for nm in names_in(t.test):
+            for a in assignments_to(cf6, nm):
+                v_ = getattr(a, "value", None)
+                if v_ is not None:
+                    for y in ast.walk(v_):
+                        if isinstance(y, ast.Attribute) and dotted(y.value) == "self":
+                            tested.add(y.attr)
+                        if isinstance(y, ast.Constant) and isinstance(y.value, str) and y.value.startswith("_"):
+                            tested.add(y.value)           # getattr(self, '_action_depth', 0)
+        for y in ast.walk(t.test):
+            if isinstance(y, ast.Attribute) and dotted(y.value) == "self" and not y.attr.isupper():
+                tested.add(y.attr)
+    tested = {a for a in tested if a.startswith("_")}
+    for v in VIEWS:
+        b = roles(ctx, v).builtin
+        restored = {w.attr for w in attr_writes(b) if w.op == "aug" and in_finally(b, w.node) is not None}
+        monotone = sorted(a for a in tested if a not in restored and any(w.attr == a and w.op == "aug" for f_ in roles(ctx, v).funcs for w in attr_writes(f_)))
+        c.ob("R6", bool(monotone), b, f"{v}:expansion-bound-is-depth-only",
+             f"the cut tests {monotone}, which is not restored on unwinding: the number of expansions is bounded" if monotone else
+             f"the only counter(s) the expansion cut tests ({sorted(tested)}) are restored in the finally of {b.short}: they bound the nesting depth; "
+             f"a pure/enqueueActions callback that returns itself twice expands 2**(MAX_ACTION_DEPTH+1) times before every branch is cut, "
+             f"so send()/start() do not return in any practical time", b.node)
     cf = p.method("BaseInterpreter", "_collect_builtin_followups")
     tests = [x for x in own_nodes(cf.node) if isinstance(x, ast.If) and "MAX_ACTION_DEPTH" in norm(x.test)]
     ok = bool(tests) and all(any(isinstance(s, ast.Return) for s in t.body) for t in tests)
@@ -193,7 +251,19 @@ def run(ctx):
             atoms = guards_at(d_, x)
             in_breaker = any("limit" in norm(a) and pol for a, pol in atoms)
             if in_breaker:
-                c.ob("R4", True, d_, "counter-reset:after-cut", "counter reset after the chain was cut", x, nontrivial=False)
+                # the cut discards the event it has just dequeued; resetting the counter there declares the chain ended, which is
+                # only true if the rest of the chain (one macrostep may have raised many events) is discarded with it
+                br = next((a_ for a_ in ancestors(d_, x) if isinstance(a_, ast.If) and "limit" in norm(a_.test)), None)
+                drains = br is not None and any(
+                    isinstance(y, (ast.While, ast.For, ast.AsyncFor)) or
+                    (isinstance(y, ast.Call) and isinstance(y.func, ast.Attribute) and y.func.attr == "clear" and "_event_queue" in norm(y.func.value)) or
+                    (isinstance(y, ast.Assign) and any("_event_queue" in norm(t_) for t_ in y.targets))
+                    for st_ in br.body for y in ast.walk(st_))
+                c.ob("R4", drains, d_, "counter-reset:after-cut",
+                     "the cut discards the rest of the chain before declaring it ended" if drains else
+                     f"the breaker discards the single event it dequeued and then '{stmt_text(x)}' declares the chain ended, although one macrostep "
+                     f"can have raised many events (an always-loop cut by the settle bound whose transitions raise X leaves max_iterations X events "
+                     f"queued): each survivor feeds the chain again, the queue grows without bound and the run loop never yields", x)
                 continue
             quiescent = any(("_event_queue" in norm(a) and ("empty" in norm(a) or "qsize" in norm(a) or "not self._event_queue" in norm(a))) for a, pol in atoms)
             c.ob("R4", quiescent, d_, "counter-reset:mid-chain",
